@@ -3,6 +3,7 @@ import ast
 import z3
 from pyvc.sorts import *  # noqa
 from pyvc.state import *  # noqa
+from pyvc.state import cls_fn
 from pyvc import contract as C
 from pyvc.expr import DICTLIKE, SEQLIKE, dkeys_cnt, dkeys_seq, dkeys_axioms
 
@@ -89,6 +90,14 @@ class CallMixin:
     h = st.heap
     facts = []
     r = z3.Int('hc_r')
+    if ctr.havoc_all:
+      newh = h
+      for n in list(h.names()):
+        if n != 'alloc':
+          newh = newh.set(n, fresh('any_' + n.replace(':', '_'), heap_sort(n)))
+      na = fresh('alloc', I)
+      newh = newh.set('alloc', na)
+      return st.with_heap(newh).assume(na >= h.alloc)
     if ctr.allocates:
       na = fresh('alloc', I)
       facts.append(na >= h.alloc)
@@ -124,6 +133,7 @@ class CallMixin:
     self.call_ord[ctr.id] = n + 1
     line = getattr(node, 'lineno', None)
     ctx_pre = C.Ctx(argmap, st.heap, st.heap, env=argmap)
+    ctx_pre.caller = st.env
     self.oblige(f'call:{ctr.id}@{line}/pre', 'call-pre', st, ctr.requires(ctx_pre),
                 f'precondition of {ctr.id}', line)
     if ctr.abstract:
@@ -139,17 +149,20 @@ class CallMixin:
       if self.feasible(st, c):
         se = self.havoc_call(st.assume(c), ctr, mod)
         ctx_e = C.Ctx(argmap, st.heap, se.heap, env=argmap)
+        ctx_e.caller = st.env
         if name in ctr.raises_post:
           se = se.assume(ctr.raises_post[name](ctx_e))
         out.append(Res(se, exc=Exc(name, origin=f'{ctr.id}@{line}')))
     for name in ctr.may_raise:
       se = self.havoc_call(st, ctr, mod)
       ctx_e = C.Ctx(argmap, st.heap, se.heap, env=argmap)
+      ctx_e.caller = st.env
       if name in ctr.raises_post:
         se = se.assume(ctr.raises_post[name](ctx_e))
       cls_t = fresh('exc_cls', I)
-      se = se.assume(cls_in(cls_t, name))
-      out.append(Res(se, exc=Exc(cls_t, name=name, origin=f'{ctr.id}@{line}')))
+      ev = fresh('exc_obj', I)
+      se = se.assume(cls_in(cls_t, name), ev >= st.heap.alloc, ev < se.heap.alloc, cls_fn(ev) == cls_t)
+      out.append(Res(se, exc=Exc(cls_t, val=VRef(ev), name=name, origin=f'{ctr.id}@{line}')))
     sn = st.assume(z3.Not(z3.Or(conds))) if conds else st
     if self.feasible(sn):
       sn = self.havoc_call(sn, ctr, mod)
@@ -162,6 +175,7 @@ class CallMixin:
       items = res.items if isinstance(res, TupleImm) else [res]
       sane = [z3.Implies(is_VRef(x), ref(x) < sn.heap.alloc) for x in items if z3.is_expr(x)]
       ctx_post = C.Ctx(argmap, st.heap, sn.heap, result=res, env=argmap)
+      ctx_post.caller = st.env
       sn = sn.assume(*sane, ctr.ensures(ctx_post))
       out.append(Res(sn, res))
     return out
@@ -576,15 +590,19 @@ class CallMixin:
   bi_repr = bi_str
 
   def bi_type(self, pos, kw, st, node):
-    self.unsupp('type(x)', node)
+    if len(pos) != 1 or not z3.is_expr(pos[0]):
+      self.unsupp('type(...) form', node)
+    return [Res(st, TypeOf(pos[0]))]
 
   # logging.* : no-ops that cannot raise (DESIGN §2.1)
   def bi_logging_info(self, pos, kw, st, node):
     return [Res(st, VNone)]
-  bi_logging_warning = bi_logging_debug = bi_logging_error = bi_logging_info
+  bi_logging_warning = bi_logging_debug = bi_logging_error = bi_logging_exception = bi_logging_info
 
   # ---------------------------------------------------------------- type calls
   def call_type(self, name, pos, kw, st, node):
+    if name == 'type':
+      return self.bi_type(pos, kw, st, node)
     if name in ('list', 'tuple', 'dict', 'set', 'slice', 'object', 'str', 'frozenset'):
       if name == 'frozenset':
         rs = self.bi_set(pos, kw, st, node)
